@@ -12,9 +12,9 @@ From Coq Require Import List Ascii String Bool Arith Lia PrimFloat.
 From Verif Require Import Base.Result Base.Str Base.Sexp Base.PyDict Base.Float
   Model.Tokenizer Model.Types Model.NumExpr Model.Domain Model.DomainExporter Model.Combine Model.CombineDomains
   Spec.Combine Corr.Core
-  Proofs.C17_Dict Proofs.C17_Structured
-  Proofs.C08_Defs Proofs.C08_Trees Proofs.C08_Pre Proofs.C08_Tables Proofs.C08_Domain Proofs.C08_RangeDom
-  Proofs.C08_Vocab.
+  Proofs.C17_Dict Proofs.C17_Domains Proofs.C17_Structured
+  Proofs.C08_Defs Proofs.C08_Trees Proofs.C08_Pre Proofs.C08_Tables Proofs.C08_Domain Proofs.C08_Range Proofs.C08_RangeDom
+  Proofs.C08_Vocab Proofs.C08_Main.
 Import ListNotations.
 Open Scope string_scope.
 Open Scope list_scope.
@@ -428,3 +428,193 @@ Section Combine.
     rewrite c_wf_types, c_wf_consts, c_wf_preds, c_wf_funcs, (nodup_has_dup _ Hnd), c_wf_actions. reflexivity.
   Qed.
 End Combine.
+
+(* ---------------------------------------------------------------- the dummy actions keep well-formedness *)
+Lemma dset_nodup {V} (d : pydict V) k v : NoDup (dkeys d) -> NoDup (dkeys (dset d k v)).
+Proof. intros H. rewrite dset_set_item. exact (NoDup_set_item k v d H). Qed.
+
+Lemma dset_in {V} (d : pydict V) k v k' v' : NoDup (dkeys d) ->
+  In (k', v') (dset d k v) -> (k' = k /\ v' = v) \/ In (k', v') d.
+Proof.
+  intros Hnd H. rewrite dset_set_item in H. apply (In_set_item k' v' k v d Hnd) in H.
+  destruct H as [H|[_ H]]; [now left|now right].
+Qed.
+
+Lemma dmem_dset {V} (d : pydict V) k v k' : dmem d k' = true -> dmem (dset d k v) k' = true.
+Proof.
+  unfold dmem. intros H. destruct (String.eqb k' k) eqn:E.
+  - apply String.eqb_eq in E. subst. now rewrite dget_dset_same.
+  - apply String.eqb_neq in E. now rewrite (dget_dset_other d k k' v E).
+Qed.
+
+Lemma wf_dummy_action num tt ck (preds funcs : pydict signature) dpre deff name pos :
+  String.eqb (lower_string name) name = true -> dmem preds M_DUMMY_PRED = true ->
+  wf_action num (type_known tt) ck preds funcs dpre deff (dummy_action name pos) = true.
+Proof.
+  intros Hname Hp. unfold wf_action, dummy_action. cbn [ma_name ma_sig ma_pre ma_disc ma_num ma_cond ma_univ].
+  rewrite Hname. cbn [andb]. unfold wf_sig, wf_efflit, wf_args.
+  cbn [dkeys map fst snd has_dup str_in negb forallb andb starts_with_q l_pos l_name l_args pre_op wf_pre].
+  unfold type_known. rewrite String.eqb_refl. cbn [orb andb].
+  destruct pos; [rewrite Hp|]; reflexivity.
+Qed.
+
+Theorem wf_add_dummy num dpre deff (c : mdomain) :
+  wf_mdomain num dpre deff c = true -> wf_mdomain num dpre deff (add_dummy_m c) = true.
+Proof.
+  intros H. destruct (wf_mdomain_parts _ _ _ _ H) as (Ht & Hc & Hp & Hf & Hd & Ha).
+  pose proof (has_dup_false_nodup _ Hd) as Hnd.
+  assert (Hpnd : NoDup (dkeys (Domain.d_preds c))).
+  { unfold wf_preds in Hp. apply andb_true_iff in Hp. destruct Hp as [Hp _]. apply negb_true_iff in Hp.
+    now apply has_dup_false_nodup. }
+  unfold wf_mdomain, wf_mdomain_gen, add_dummy_m.
+  cbn [Domain.d_types Domain.d_consts Domain.d_preds Domain.d_funcs Domain.d_actions].
+  rewrite Ht, Hc, Hf. cbn [andb].
+  assert (Hp' : wf_preds (Domain.d_types c) (dset (Domain.d_preds c) M_DUMMY_PRED []) = true).
+  { unfold wf_preds. apply andb_true_iff. split.
+    { apply negb_true_iff, nodup_has_dup. now apply dset_nodup. }
+    apply forallb_forall. intros [k sg] Hin. destruct (dset_in _ _ _ _ _ Hpnd Hin) as [[-> ->]|Hold].
+    - reflexivity.
+    - unfold wf_preds in Hp. apply andb_true_iff in Hp. destruct Hp as [_ Hall]. rewrite forallb_forall in Hall.
+      exact (Hall (k, sg) Hold). }
+  rewrite Hp'. cbn [andb].
+  pose proof (dset_nodup _ M_DUMMY_ADD (dummy_action M_DUMMY_ADD true) Hnd) as Hnd1.
+  apply andb_true_iff. split.
+  { apply negb_true_iff, nodup_has_dup. now apply dset_nodup. }
+  assert (Hdp : dmem (dset (Domain.d_preds c) M_DUMMY_PRED []) M_DUMMY_PRED = true)
+    by (unfold dmem; now rewrite dget_dset_same).
+  apply forallb_forall. intros [n a] Hin. cbn [fst snd].
+  destruct (dset_in _ _ _ _ _ Hnd1 Hin) as [[-> ->]|Hin1].
+  - apply andb_true_iff. split; [reflexivity|]. apply wf_dummy_action; [reflexivity|exact Hdp].
+  - destruct (dset_in _ _ _ _ _ Hnd Hin1) as [[-> ->]|Hold].
+    + apply andb_true_iff. split; [reflexivity|]. apply wf_dummy_action; [reflexivity|exact Hdp].
+    + rewrite forallb_forall in Ha. specialize (Ha (n, a) Hold). cbn [fst snd] in Ha.
+      apply andb_true_iff in Ha. destruct Ha as [H1 H2]. rewrite H1. cbn [andb].
+      revert H2. apply wf_action_mono; try (intros; assumption).
+      * intros p. apply dmem_dset.
+      * intros k sg Hk. exists sg. split; [assumption|reflexivity].
+Qed.
+
+(* ---------------------------------------------------------------- C17_roundtrip: composed with C08 *)
+Theorem C17_wellformed_structured_lemma : forall (num : numparser) (dpre deff : nat) (dummy : bool) (files : list mdomain),
+  (forall f, In f files -> wf_mdomain num dpre deff f = true) ->
+  agree (map Domain.d_types files) -> same_arity (map Domain.d_funcs files) ->
+  wf_mdomain num dpre deff (locate_mdomains dummy files) = true.
+Proof.
+  intros num dpre deff dummy files Hwf Hag Har. unfold locate_mdomains.
+  pose proof (wf_combine num dpre deff files Hwf Hag Har) as Hc.
+  destruct dummy; [now apply wf_add_dummy|exact Hc].
+Qed.
+
+Theorem C17_roundtrip_lemma : forall (num : numparser) (dpre deff : nat) (dummy : bool) (files : list mdomain),
+  (forall f, In f files -> wf_mdomain num dpre deff f = true) ->
+  agree (map Domain.d_types files) -> same_arity (map Domain.d_funcs files) ->
+  let c := locate_mdomains dummy files in
+  parse_domain num (export_domain dpre deff c) = Ok (rr_domain num dpre deff c) /\
+  model_vocab (rr_domain num dpre deff c) = model_vocab c /\
+  Domain.d_name (rr_domain num dpre deff c) = Domain.d_name c /\
+  Domain.d_reqs (rr_domain num dpre deff c) = Domain.d_reqs c.
+Proof.
+  intros num dpre deff dummy files Hwf Hag Har c.
+  pose proof (C17_wellformed_structured_lemma num dpre deff dummy files Hwf Hag Har) as Hc.
+  split; [now apply domain_roundtrip|]. split; [apply vocab_same|]. split; reflexivity.
+Qed.
+
+(* from text to text: the per-agent files are texts the parser accepts (C08_range_domain discharges wf_mdomain) *)
+Definition parsed_agent_file (num : numparser) (e : sexp) (m : mdomain) : Prop :=
+  canonical e = true /\ no_vac e = true /\ parse_domain num e = Ok m /\
+  forallb (fun kp => not_dash (fst kp)) (Domain.d_types m) = true /\
+  forallb (fun ns => negb (str_in (fst ns) reserved_names)) (Domain.d_preds m) = true /\
+  forallb (fun k => match dget (Domain.d_funcs m) k with None => true | Some _ => false end)
+          ("=" :: comparison_ops ++ assignment_ops) = true.
+
+Theorem C17_roundtrip_parsed_lemma : forall (num : numparser) (dpre deff : nat),
+  (forall d, d = dpre \/ d = deff -> forall s x, num s = Some x -> num_ok num d x = true) ->
+  (forall c r x, num (String c r) = Some x -> str_in (String c EmptyString) comparison_ops = false) ->
+  forall (dummy : bool) (texts : list sexp) (files : list mdomain),
+  Forall2 (parsed_agent_file num) texts files ->
+  agree (map Domain.d_types files) -> same_arity (map Domain.d_funcs files) ->
+  let c := locate_mdomains dummy files in
+  wf_mdomain num dpre deff c = true /\
+  parse_domain num (export_domain dpre deff c) = Ok (rr_domain num dpre deff c) /\
+  model_vocab (rr_domain num dpre deff c) = model_vocab c.
+Proof.
+  intros num dpre deff Hnum Hcmp dummy texts files Hall Hag Har c.
+  assert (Hwf : forall f, In f files -> wf_mdomain num dpre deff f = true).
+  { clear Hag Har c. induction Hall as [|e m texts files Hem _ IH]; intros f Hf; [contradiction|].
+    destruct Hf as [<-|Hf]; [|now apply IH].
+    destruct Hem as (H1 & H2 & H3 & H4 & H5 & H6).
+    apply (parse_domain_wf num dpre deff Hnum Hcmp e m H1 H2 H3 H4 H5).
+    intros k Hk. apply str_in_In in Hk. rewrite forallb_forall in H6. specialize (H6 k Hk).
+    destruct (dget (Domain.d_funcs m) k); [discriminate|reflexivity]. }
+  split; [now apply C17_wellformed_structured_lemma|].
+  destruct (C17_roundtrip_lemma num dpre deff dummy files Hwf Hag Har) as (R1 & R2 & _). split; assumption.
+Qed.
+
+(* the dump-level agreement of Props/C17.v (rows) gives the agreement on type parents used here *)
+Lemma rows_types_agree (files : list mdomain) :
+  agree (map (fun m => Combine.d_types (rows_of m)) files) -> agree (map Domain.d_types files).
+Proof.
+  intros H d e k v w Hd He H1 H2.
+  apply in_map_iff in Hd. destruct Hd as [f [<- Hf]]. apply in_map_iff in He. destruct He as [g [<- Hg]].
+  apply (H (Combine.d_types (rows_of f)) (Combine.d_types (rows_of g)) k v w).
+  - apply in_map_iff. exists f. split; [reflexivity|assumption].
+  - apply in_map_iff. exists g. split; [reflexivity|assumption].
+  - unfold rows_of, mapv. cbn [Combine.d_types]. apply in_map_iff. exists (k, v). split; [reflexivity|assumption].
+  - unfold rows_of, mapv. cbn [Combine.d_types]. apply in_map_iff. exists (k, w). split; [reflexivity|assumption].
+Qed.
+
+(* ---------------------------------------------------------------- non-vacuity: the two agent files of
+   Proofs/C17_Structured.v (overlapping, :private block, differing requirements) satisfy every hypothesis *)
+Definition agree_sigs_b (secs : list (pydict signature)) : bool :=
+  let all := List.concat secs in
+  forallb (fun a => forallb (fun b => negb (String.eqb (fst a) (fst b)) ||
+                                      Nat.eqb (List.length (snd a)) (List.length (snd b))) all) all.
+
+Lemma agree_sigs_sound secs : agree_sigs_b secs = true -> same_arity secs.
+Proof.
+  unfold agree_sigs_b. intros H d e k sg sg' Hd He H1 H2. rewrite forallb_forall in H.
+  assert (I1 : In (k, sg) (List.concat secs)) by (apply in_concat; eauto).
+  assert (I2 : In (k, sg') (List.concat secs)) by (apply in_concat; eauto).
+  pose proof (H (k, sg) I1) as Ha. rewrite forallb_forall in Ha.
+  specialize (Ha (k, sg') I2). cbn [fst snd] in Ha. rewrite String.eqb_refl in Ha. cbn [negb orb] in Ha.
+  now apply Nat.eqb_eq.
+Qed.
+
+(* two per-agent files: overlapping types / predicates, a :private block, differing requirements, the shared
+   function declared with different parameter names (same arity, not the same signature), numeric conditions and
+   effects, a constant of a declared type and a constant of the root type written bare at the end of the list *)
+Definition exc_text_a : string :=
+  "(define (domain lg) (:requirements :typing) (:types loc agent - object truck - agent) (:constants hq - loc tok)
+   (:predicates (at ?a - agent ?l - loc) (:private (free ?l - loc)) (marked ?o - object))
+   (:functions (fuel ?t - truck))
+   (:action move :parameters (?a - truck ?x - loc ?y - loc)
+    :precondition (and (at ?a ?x) (free ?y) (marked tok) (>= (fuel ?a) 1))
+    :effect (and (at ?a ?y) (not (at ?a ?x)) (decrease (fuel ?a) 0.5))))".
+Definition exc_text_b : string :=
+  "(define (domain lg) (:requirements ) (:types agent loc - object plane truck - agent) (:constants tok - object hq - loc)
+   (:predicates (at ?a - agent ?l - loc) (sky ?l - loc))
+   (:functions (fuel ?x - truck) (height ?p - plane))
+   (:action fly :parameters (?a - plane ?x - loc) :precondition (and (at ?a ?x) (not (sky ?x)) (<= (height ?a) 10))
+    :effect (and (sky ?x) (at ?a hq) (increase (height ?a) 1))))".
+
+Definition exc_sexp (s : string) : sexp := match parse MFile (s2t s) with Ok e => e | Err _ => Atom "" end.
+Definition exc_file (s : string) : mdomain :=
+  match parse_domain ex_num (exc_sexp s) with Ok m => m | Err _ => empty_domain end.
+
+Lemma exc_compose :
+  Forall2 (parsed_agent_file ex_num) [exc_sexp exc_text_a; exc_sexp exc_text_b] [exc_file exc_text_a; exc_file exc_text_b] /\
+  agree (map Domain.d_types [exc_file exc_text_a; exc_file exc_text_b]) /\
+  same_arity (map Domain.d_funcs [exc_file exc_text_a; exc_file exc_text_b]) /\
+  dget (Domain.d_funcs (exc_file exc_text_a)) "fuel" <> dget (Domain.d_funcs (exc_file exc_text_b)) "fuel" /\
+  Domain.d_consts (locate_mdomains true [exc_file exc_text_a; exc_file exc_text_b]) = [("hq", "loc"); ("tok", "object")] /\
+  Domain.d_consts (locate_mdomains true [exc_file exc_text_b; exc_file exc_text_a]) = [("tok", "object"); ("hq", "loc")] /\
+  dkeys (Domain.d_actions (locate_mdomains true [exc_file exc_text_a; exc_file exc_text_b])) =
+    ["move"; "fly"; M_DUMMY_ADD; M_DUMMY_DEL].
+Proof.
+  split; [|split; [|split; [|split]]].
+  - repeat constructor; vm_compute; reflexivity.
+  - apply agree_of_b. vm_compute. reflexivity.
+  - apply agree_sigs_sound. vm_compute. reflexivity.
+  - vm_compute. discriminate.
+  - vm_compute. repeat split.
+Qed.
